@@ -847,6 +847,95 @@ def gen_solver():
 
 
 # ----------------------------------------------------------------------------------------
+# G2b: the state a solver OBJECT keeps between calls (solver_base.py, solver_O*.py)
+# ----------------------------------------------------------------------------------------
+
+SOLVER_FILES = [("O2", "solver_O2.py"), ("O3", "solver_O3.py"), ("O4", "solver_O4.py"), ("O2O3", "solver_O2O3.py"),
+                ("O3O4", "solver_O3O4.py"), ("O2O3O4", "solver_O2O3O4.py")]
+
+
+def _self_attrs(fn):
+    """(attributes of `self` read, attributes of `self` written or mutated through a method call / subscript store)"""
+    reads, writes = set(), set()
+    for n in ast.walk(fn):
+        if isinstance(n, ast.Attribute) and isinstance(n.value, ast.Name) and n.value.id == "self":
+            (writes if isinstance(n.ctx, (ast.Store, ast.Del)) else reads).add(n.attr)
+        if isinstance(n, ast.Subscript) and isinstance(n.ctx, (ast.Store, ast.Del)):
+            v = n.value
+            if isinstance(v, ast.Attribute) and isinstance(v.value, ast.Name) and v.value.id == "self":
+                writes.add(v.attr)
+        if isinstance(n, ast.Call) and isinstance(n.func, ast.Attribute) and n.func.attr in (
+                "append", "update", "setdefault", "clear", "pop", "extend", "insert", "add", "remove", "sort", "fill",
+                "resize", "put", "itemset", "setflags", "__setitem__"):
+            v = n.func.value
+            if isinstance(v, ast.Attribute) and isinstance(v.value, ast.Name) and v.value.id == "self":
+                writes.add(v.attr)
+    return reads, writes
+
+
+def gen_solver_state():
+    """For every solver class: which attributes the result accessors (`full_fc`, `compact_fc`, `_recover_fcs`) read
+    and write, and which attributes `solve` writes. The model's solver result is a function of (basis sets, last
+    dataset) only; that is the case iff the accessors read nothing but `_coefs` and the constructor inputs and write
+    nothing, and `solve` writes nothing but `_coefs`."""
+    rows = []
+    allowed_ctor = {"_basis_set", "_use_mkl", "_log_level", "_natom"}
+    base = parse("solvers/solver_base.py")
+    bcls = [n for n in base.body if isinstance(n, ast.ClassDef) and n.name == "FCSolverBase"]
+    if len(bcls) != 1:
+        fail("solvers/solver_base.py", base, "class FCSolverBase expected")
+    binit = [m for m in bcls[0].body if isinstance(m, ast.FunctionDef) and m.name == "__init__"]
+    if len(binit) != 1:
+        fail("solvers/solver_base.py", bcls[0], "FCSolverBase.__init__ expected")
+    _, bw = _self_attrs(binit[0])
+    rec("solvers/solver_base.py", binit[0], "FCSolverBase.__init__ attributes", sorted(bw))
+    if not bw <= allowed_ctor | {"_coefs"}:
+        fail("solvers/solver_base.py", binit[0], f"FCSolverBase.__init__ keeps unexpected state {sorted(bw)}")
+    for tag, fname in SOLVER_FILES:
+        rel = f"solvers/{fname}"
+        mod = parse(rel)
+        cls = [n for n in mod.body if isinstance(n, ast.ClassDef) and n.name == f"FCSolver{tag}"]
+        if len(cls) != 1:
+            fail(rel, mod, f"class FCSolver{tag} expected")
+        meths = {m.name: m for m in cls[0].body if isinstance(m, ast.FunctionDef)}
+        for need in ("solve", "full_fc", "compact_fc", "_recover_fcs"):
+            if need not in meths:
+                fail(rel, cls[0], f"FCSolver{tag}.{need} expected")
+        extra_state = set()
+        if "__init__" in meths:
+            _, w = _self_attrs(meths["__init__"])
+            extra_state = w - allowed_ctor - {"_coefs"}
+        acc_reads, acc_writes = set(), set()
+        for name in ("full_fc", "compact_fc", "_recover_fcs"):
+            r, w = _self_attrs(meths[name])
+            acc_reads |= r
+            acc_writes |= w
+        other = {k: _self_attrs(v) for k, v in meths.items()
+                 if k not in ("__init__", "solve", "full_fc", "compact_fc", "_recover_fcs")}
+        for k, (r, w) in other.items():
+            acc_writes |= w          # any further method that mutates the object is counted as well
+        _, solve_writes = _self_attrs(meths["solve"])
+        acc_reads -= {"_recover_fcs", "full_fc", "compact_fc"}          # method references
+        row = {"solver": tag, "accessorReads": sorted(acc_reads - allowed_ctor), "accessorWrites": sorted(acc_writes),
+               "solveWrites": sorted(solve_writes), "extraCtorState": sorted(extra_state)}
+        rec(rel, cls[0], f"FCSolver{tag} object state", row)
+        rows.append(row)
+
+    def ll(xs):
+        return "[" + ", ".join(f'"{x}"' for x in xs) + "]"
+    out = ["/- REGENERATED by tools/extract.py from solvers/solver_*.py — do not edit. -/",
+           "namespace Symfc.Gen", "",
+           "/-- per solver class: (name, attributes read by the result accessors besides the constructor inputs,",
+           "    attributes written by the accessors or any other non-solve method, attributes written by `solve`,",
+           "    extra attributes created by the constructor) -/",
+           "def solverObjectState : List (String × List String × List String × List String × List String) := ["]
+    out.append(",\n".join(f'  ("{r["solver"]}", {ll(r["accessorReads"])}, {ll(r["accessorWrites"])}, '
+                           f'{ll(r["solveWrites"])}, {ll(r["extraCtorState"])})' for r in rows) + "]")
+    out += ["", "end Symfc.Gen"]
+    return "\n".join(out) + "\n"
+
+
+# ----------------------------------------------------------------------------------------
 # G3: api_symfc.py
 # ----------------------------------------------------------------------------------------
 
@@ -1275,6 +1364,7 @@ GENERATORS = {
     "PermTables": gen_perm_tables,
     "Cutoff": gen_cutoff,
     "Solver": gen_solver,
+    "SolverState": gen_solver_state,
     "ApiOrders": gen_api_orders,
     "ApiDataset": gen_api_dataset,
     "ApiSolve": gen_api_solve,
